@@ -30,7 +30,9 @@ package builder
 //@   guard-call hours: "AddInt32" nf(arg(0)) >= 13 && arg(1) == WorkingHours
 //@   loop "for _, host := range Config.Config.Hosts"
 //@     invariant past: nf(DemonConfig) >= 14 && DemonConfig != nil && b != nil
-//@   loop "for _, headers := range Config.Config.Headers"
+// the listener chosen for the build is only read (a prohibition: no such store may exist)
+//@   guard-store listener: "(HTTP|SMB|External)\.Config" false
+//@   loop "for _, headers := range Headers"
 //@     invariant past: nf(DemonConfig) >= 14 && DemonConfig != nil && b != nil
 //@   loop "for _, uri := range Config.Config.Uris"
 //@     invariant past: nf(DemonConfig) >= 14 && DemonConfig != nil && b != nil
